@@ -201,6 +201,13 @@ fn page_chain(h: &mut Hist, ctx: &mut Ctx) {
 }
 
 fn page_chain_with(h: &mut Hist, ctx: &mut Ctx, real_limit: bool) {
+    page_chain_lim(h, ctx, real_limit, None)
+}
+
+/// `wide`: a page size (through the hook) chosen by the caller for addresses that received
+/// hundreds of outputs from one transaction; events are then biased towards stabilisation like
+/// with the real limit.
+fn page_chain_lim(h: &mut Hist, ctx: &mut Ctx, real_limit: bool, wide: Option<usize>) {
     let net = h.net();
     // an address with as many UTXOs as possible at the best tip
     let best_tip = *h.model.best_chains()[0].last().unwrap();
@@ -218,7 +225,11 @@ fn page_chain_with(h: &mut Hist, ctx: &mut Ctx, real_limit: bool) {
     if best_n < 2 {
         return;
     }
-    let limit = if real_limit { 1000 } else { h.rng.range(1, (best_n as u64 - 1).min(7)) as usize };
+    let limit = if real_limit { 1000 } else if let Some(w) = wide { w } else { h.rng.range(1, (best_n as u64 - 1).min(7)) as usize };
+    let stabilise_bias = real_limit || wide.is_some();
+    if wide.is_some() {
+        ctx.cov.count("c06_chains_over_wide_transactions");
+    }
     if real_limit {
         ctx.cov.count("c06_chains_with_the_real_1000_limit");
         ctx.cov.max("max_utxos_of_one_address", best_n as u64);
@@ -260,7 +271,7 @@ fn page_chain_with(h: &mut Hist, ctx: &mut Ctx, real_limit: bool) {
         // interleave events
         let n_ev = h.rng.range(0, 2);
         for _ in 0..n_ev {
-            let ev = if real_limit {
+            let ev = if stabilise_bias {
                 // many outputs of one transaction: the interesting transition is unstable -> stable
                 *h.rng.pick(&[Ev::Stabilise, Ev::Stabilise, Ev::Stabilise, Ev::GrowBest, Ev::GrowCompetitor, Ev::Upgrade, Ev::None])
             } else {
@@ -443,7 +454,7 @@ fn blob_fuzz(h: &mut Hist, ctx: &mut Ctx) {
 
 /// Addresses with 1001-3500 UTXOs spread over stable and unstable blocks, paged with the real limit.
 pub fn lane_bigpages(ctx: &mut Ctx) {
-    let max_cases = if ctx.tier == crate::cov::Tier::Quick { 8 } else { 100_000 };
+    let max_cases = if ctx.tier == crate::cov::Tier::Quick { 64 } else { 100_000 };
     for k in ctx.cases("bigpages", max_cases) {
         if !ctx.time_left() {
             break;
@@ -457,10 +468,13 @@ pub fn lane_bigpages(ctx: &mut Ctx) {
         cfg.fanout_pct = 0;
         cfg.threshold = rng.range(2, 4) as u32;
         let mut h = Hist::new(cfg, rng);
-        let total = h.rng.range(1001, 3500) as usize;
+        // every other case: one transaction with 257-700 outputs to the target (vout beyond one
+        // byte) and page sizes in the hundreds, instead of thousands of outputs and the real limit
+        let wide = k % 2 == 1;
+        let total = if wide { h.rng.range(257, 700) as usize } else { h.rng.range(1001, 3500) as usize };
         let target = h.uni.addrs[h.rng.usize_below(h.uni.addrs.len())].clone();
         // several blocks, each with a coinbase paying many outputs to the target
-        let blocks = h.rng.range(2, 6) as usize;
+        let blocks = if wide { 1 } else { h.rng.range(2, 6) as usize };
         let mut left = total;
         let mut ok = true;
         for bi in 0..blocks {
@@ -491,6 +505,12 @@ pub fn lane_bigpages(ctx: &mut Ctx) {
         if ok {
             if ctx.prop == "C01" {
                 crate::mon::check_c01(&mut h, ctx, None);
+            } else if wide {
+                // page boundaries inside the wide transaction's outputs, beyond vout 255
+                for _ in 0..3 {
+                    let w = *h.rng.pick(&[64usize, 100, 128, 200, 255, 256, 257, 300]);
+                    page_chain_lim(&mut h, ctx, false, Some(w));
+                }
             } else {
                 page_chain_with(&mut h, ctx, true);
                 page_chain_with(&mut h, ctx, true);
